@@ -252,6 +252,7 @@ fn gen_response(rng: &mut Rng) -> Vec<u8> {
     b
 }
 
+pub fn mutate_pub(rng: &mut Rng, v: &mut Vec<u8>) { mutate(rng, v) }
 fn mutate(rng: &mut Rng, v: &mut Vec<u8>) {
     let n = rng.range(1, 2);
     for _ in 0..n {
